@@ -62,7 +62,12 @@ func generalizeErr(err error) error {
 		}
 	}
 
-	// if it is not a well known error, return it
+	// if it is not a well known error, return it - without the endpoint addresses that the net
+	// package attaches, the callers log the result
+	var opErr *net.OpError
+	if errors.As(err, &opErr) {
+		return &net.OpError{Op: opErr.Op, Net: opErr.Net, Err: opErr.Err}
+	}
 	return err
 }
 
